@@ -108,7 +108,7 @@ def hh93_common():
 def law_hh93(kind, sp, a, eb, yld):
     garea, densites, cov = hh93_common()
     T, Td = P("Tgas"), P("Tdust")
-    A = mass_number(sp) if sp else 0
+    A = mass_number(sp) if isinstance(sp, str) and sp else 0
     zeta = fdiv(P("zeta_cr"), C["zism"])
     vib = lambda: SQRT(fdiv(mul(F("2.0"), P("sites"), C["kerg"], eb), mul(C["pi"], C["pi"], C["amu"], Fraction(A))))
     if kind == 7:
@@ -122,6 +122,35 @@ def law_hh93(kind, sp, a, eb, yld):
         return mul(P("opt_uvd"), cov, phot, yld, P("nMono"), garea)
     if kind == 20:
         return mul(C["pi"], P("rG"), P("rG"), SQRT(fdiv(fdiv(fdiv(mul(F("8.0"), C["kerg"], T), C["pi"]), C["amu"]), C["meu"])))
+    if kind in (13, 14):
+        # surface two-body reaction (Hasegawa, Herbst & Leung 1992): sp = (species1, species2), a = activation barrier
+        s1, s2 = sp
+        eb1, eb2 = eb
+        A1, A2 = Fraction(mass_number(s1)), Fraction(mass_number(s2))
+        gdens, hop, Tdv = P("gdens"), P("hop"), P("Tdust")
+        unisites = mul(P("sites"), mul(F("4"), C["pi"], P("rG"), P("rG")))
+        freq = SQRT(fdiv(mul(F("2.0"), P("sites"), C["kerg"]), mul(fmul(C["pi"], C["pi"]), C["amu"])))
+        quan = mul(F("-2.0"), fdiv(P("barr"), C["hbar"]), SQRT(mul(F("2.0"), C["amu"], C["kerg"])))
+
+        def hopping(ebi, Ai):
+            fr = fmul(freq, SQRT(fdiv(ebi, Ai)))
+            diff = fdiv(fmul(fr, EXP(fdiv(fmul(fneg(ebi), hop), Tdv))), unisites)
+            tun = fdiv(fmul(fr, EXP(fmul(quan, SQRT(mul(hop, Ai, ebi))))), unisites)
+            return diff, tun
+
+        mx = lambda x, y: z3.If(R(x) >= R(y), R(x), R(y))
+        d1, q1 = hopping(eb1, A1)
+        d2, q2 = hopping(eb2, A2)
+        light = lambda n: n in ("GH", "GH2")
+        r1 = mx(d1, q1) if light(s1) else R(d1)
+        r2 = mx(d2, q2) if light(s2) else R(d2)
+        kappa = EXP(fdiv(fneg(a), Tdv))
+        kquan = EXP(fmul(quan, SQRT(fmul(fdiv(fmul(A1, A2), A1 + A2), a))))
+        barrier = mx(kappa, kquan) if (light(s1) or light(s2)) else R(kappa)
+        rate = barrier * (r1 + r2) * R(fdiv(POW(fmul(P("nMono"), densites), F("2.0")), gdens)) * cov * cov
+        if kind == 14:
+            rate = P("opt_rcd") * P("branch") * rate
+        return rate
     if kind == 6:
         e2 = POW(C["echarge"], F("2.0"))
         return mul(a, C["pi"], P("rG"), P("rG"), P("gdens"), SQRT(fdiv(mul(F("8.0"), C["kerg"], T), mul(C["pi"], C["amu"], Fraction(A)))),
@@ -163,6 +192,10 @@ def leeds_lines():
     add(["C+", "GRAIN-"], ["C", "GRAIN0"], 6)
     add(["H3O+", "GRAIN-"], ["H2O", "H", "GRAIN0"], 6, a="5.00E-01")
     add(["e-", "GRAIN0"], ["GRAIN-"], 20)
+    # surface two-body (13) and reactive desorption (14): every order of light (GH, GH2) and heavy partners; alpha = barrier (K)
+    for k, (x, y_, prod) in enumerate([("GH", "GCO", "GHCO"), ("GCO", "GH", "GHCO"), ("GH", "GH", "GH2"), ("GH2", "GO", "GH2O"), ("GO", "GH2", "GH2O"), ("GO", "GCO", "GCO2"), ("GH2", "GH", "GH2O")]):
+        add([x, y_], [prod], 13, a=["0.00E+00", "2.50E+03", "5.00E+02"][k % 3])
+        add([x, y_], [prod[1:]], 14, a=["1.00E+03", "0.00E+00", "2.50E+03"][k % 3])
     return L
 
 
@@ -252,9 +285,12 @@ def _analyse(name, fmt, model, mk, user, tier, res):
             ref = law_rr07(r["code"], sp, a, eb, yld, extended=(model == "rr07x"))
         else:
             spn = next((x for x in r["reactants"] if not x.startswith("GRAIN")), sp)
-            if r["code"] in (8, 9, 10):
-                pass
-            ref = law_hh93(r["code"], spn, a, eb, yld)
+            if r["code"] in (13, 14):
+                s1, s2 = r["reactants"]
+                ebs = tuple(F(user.get("binding", {}).get(x)) if user.get("binding", {}).get(x) else EB.get(x[1:]) for x in (s1, s2))
+                ref = law_hh93(r["code"], (s1, s2), a, ebs, None) if all(e is not None for e in ebs) else None
+            else:
+                ref = law_hh93(r["code"], spn, a, eb, yld)
         if ref is None:
             continue
         # names the reference uses for state-dependent quantities
@@ -291,10 +327,13 @@ def _replay(p, tdir, res, model, i, ref, key, nm, r, NEQ, ysyms):
     rnd = random.Random(i)
     try:
         nat = native.NativeEval(p, tdir, real_rates=True)
-        fields = [f for f, _ in p.data_fields(tdir)]
-        for attempt in range(5):
-            env = {f: rnd.uniform(0.5, 3.0) for f in fields}
-            env.update({"Tgas": rnd.uniform(8, 200), "Tdust": rnd.uniform(8, 60), "nH": 1e4, "rG": 1e-5, "gdens": 7.6e-9, "sites": 1.5e15, "zeta": 1.3e-17, "zeta_cr": 2.6e-17, "eb_uvd": 1e4, "eb_crd": 1e4, "eb_h2d": 1e4, "nMono": 2.0})
+        fields = p.data_fields(tdir)
+        for attempt in range(8):
+            # physically meaningful points: the generated defaults of NaunetData, cold dust for the tunnelling terms
+            env = {f: (float(d) if d else rnd.uniform(0.5, 3.0)) for f, d in fields}
+            env.update({"Tgas": rnd.uniform(8, 200), "Tdust": rnd.choice([8.0, 10.0, 12.0, 15.0, 25.0, 40.0]), "nH": 1e4, "gdens": 7.6e-9, "zeta": 1.3e-17 * rnd.uniform(0.5, 3), "zeta_cr": 2.6e-17, "eb_uvd": 1e4, "eb_crd": 1e4, "eb_h2d": 1e4})
+            if attempt % 2:
+                env.update({"G0": rnd.uniform(0.5, 3.0), "Av": rnd.uniform(0.1, 5.0)})
             yv = [rnd.uniform(1e-3, 1.0) for _ in range(NEQ)]
             out = nat.eval(yv, data=env)
             res["replays"] += 1
@@ -313,7 +352,7 @@ def _replay(p, tdir, res, model, i, ref, key, nm, r, NEQ, ysyms):
             if got is None or not native.close(got, exp, 1e-8, 1e-300):
                 res["viol"].append({"key": key, "what": f"generated grain rate differs from the dust-model law ({key}): emitted {got!r}, law {exp!r}", "replay": {"case": res["case"], "reaction": r, "point": {k_: v_ for k_, v_ in full.items() if not k_.startswith("y")}, "y": yv, "native": got, "law": exp}})
                 return
-        res["unknown"].append((nm, "sat with uninterpreted libm but the native build agrees with the law at 5 random points (incomplete congruence reasoning)"))
+        res["unknown"].append((nm, "sat with uninterpreted libm but the native build agrees with the law at 8 physically scaled points (incomplete congruence reasoning)"))
     except native.NativeError as e:
         res["unknown"].append((nm, f"sat; native replay unavailable: {str(e)[:200]}"))
 
@@ -365,9 +404,9 @@ def main(pid, tier):
         chk.notes += [f"{r['case']}: {n}" for n in r["notes"]]
         for s_ in r["samples"]:
             chk.sample(s_)
-    chk.bounds = {"cases": [c[0] for c in CASES], "refusals": [c[0] for c in REFUSE], "processes": {"rr07/rr07x (UCLCHEM format)": ["FREEZE neutral/ion/electron", "DESOH2", "DESCR", "DEUVCR", "THERM (rr07x)"], "hh93/hh93i (Leeds format)": ["6 recombination", "7 accretion", "8 thermal", "9 cosmic-ray", "10 photo", "20 electron capture"]},
+    chk.bounds = {"cases": [c[0] for c in CASES], "refusals": [c[0] for c in REFUSE], "processes": {"rr07/rr07x (UCLCHEM format)": ["FREEZE neutral/ion/electron", "DESOH2", "DESCR", "DEUVCR", "THERM (rr07x)"], "hh93/hh93i (Leeds format)": ["6 recombination", "7 accretion", "8 thermal", "9 cosmic-ray", "10 photo", "20 electron capture", "13 surface two-body and 14 reactive desorption for 7 reactant orders of light/heavy partners"]},
                   "species": ["CO", "H2O", "CH4", "C", "H", "C+", "H3O+", "e-"], "species_data": "RATE12 table and user overrides of binding energy / yield"}
     chk.assumptions = ["libm uninterpreted; GetMantleDens opaque (non-negative); Tgas, nH, rG > 0", "physical constants are read as the project defines them (their values are not part of the property)",
-                       "surface two-body / reactive desorption (Leeds 13, 14) and multi-group grains are outside the encoded set", "mass numbers and RATE12 binding energies are read independently of naunet"]
+                       "multi-group grains are outside the encoded set", "mass numbers and RATE12 binding energies are read independently of naunet"]
     chk.extra["repo_fingerprint"] = proj.repo_fingerprint()
     return chk.finish(rule="one obligation = one z3 query 'exists parameters: k[i] assigned and != dust-model law' per (format, model, process, species); refusals are ground obligations")
